@@ -108,6 +108,20 @@ impl C01 {
         let lib = match self.library_model(&d, extra, obs) {
             Some(m) => m,
             None => {
+                // with the option that reads HULC's result files: a directory that converts without the option and whose
+                // result files are absent or well-formed (all the harness writes) is still a directory the library can convert
+                if extra && self.library_model(&d, false, obs).is_some() {
+                    let bin = bin_dir(release).join("hulc2model");
+                    let code = run(&bin, &["--use-extra", &d], rust_log).and_then(|r| r.code);
+                    let has_kyg = dir.join("KyGananciasSolares.txt").exists();
+                    let has_tbl = dir.join("NewBDL_O.tbl").exists();
+                    obs.violation(
+                        "use-extra-fails-on-a-directory-that-converts",
+                        format!("{}: collect_hulc_data(dir, true, true) fails although the project converts without the option (KyGananciasSolares.txt {}, NewBDL_O.tbl {}); hulc2model --use-extra exits with {:?}", origin, if has_kyg { "present" } else { "absent" }, if has_tbl { "present" } else { "absent" }, code),
+                        json!({"project": origin, "exit": code}),
+                    );
+                    return;
+                }
                 obs.count("directory_the_library_cannot_convert");
                 return;
             }
